@@ -323,3 +323,7 @@ mod test {
         assert!(u0 % (1u128 << 64) != 0); // vanishingly small false positive prob
     }
 }
+
+#[cfg(any(kani, aszepieniec_falcon_rust_verif))]
+#[path = "/verif/hooks/samplerz.rs"]
+pub(crate) mod verif_hook;
